@@ -121,15 +121,12 @@ def h_floordiv_mixed(ctx, D, order=1, regular_first=False):
         ctx.eq(z[:, p], zp[:, 0], 'x // y direction %d' % p)
 
 
-def h_reverse_eigh_mixed(ctx, D):
-    """reverse sweep through eigh: direction 0 has a repeated eigenvalue at its base point
-    (splitting at order 1), direction 1 has distinct eigenvalues"""
+def _mixed_eigh_input(ctx, D):
+    """2x2 symmetric input with P = 2: direction 0 has a repeated eigenvalue at its base point
+    (A0 = lam0 I, splitting at order 1 through A1 = Q1 diag(mu) Q1^T), direction 1 has distinct
+    eigenvalues (B0 = Qd diag(lam) Qd^T); all other coefficients arbitrary symmetric matrices"""
     from . import c08
     from .. import stubs
-    from .c03 import Namespace, record, pullback_guard
-    from .. import programs as PR
-    from .common import plain
-    algopy = symx.load_algopy()
     P, n = 2, 2
     zero = S.const(0) if ctx.mode == 'sym' else 0.0
     one = S.const(1) if ctx.mode == 'sym' else 1.0
@@ -155,7 +152,9 @@ def h_reverse_eigh_mixed(ctx, D):
         stubs.register('eigh', A0, (np.array([lam0, lam0], dtype=object), I2))
         stubs.register('eigh', A1, (np.array(mu, dtype=object), Q1))
         stubs.register('eigh', B0, (np.array(lam, dtype=object), Qd))
-    X[0, 0], X[1, 0], X[0, 1] = A0, A1, B0
+    X[0, 0], X[0, 1] = A0, B0
+    if D > 1:
+        X[1, 0] = A1
     for d in range(D):
         for p in range(P):
             if (d, p) in ((0, 0), (1, 0), (0, 1)):
@@ -163,6 +162,44 @@ def h_reverse_eigh_mixed(ctx, D):
             for i in range(n):
                 for j in range(n):
                     X[d, p, i, j] = X[d, p, j, i] if j < i else ctx.var('A%d_%d[%d,%d]' % (d, p, i, j))
+    return X
+
+
+def h_eigh1_pullback_mixed(ctx, D):
+    """UTPM.eigh1 / UTPM.pb_eigh1 (the relaxed problem behind eigh) called directly with the mixed
+    input above: the adjoint of each direction equals the one of that direction propagated alone"""
+    from .common import plain, mk_utpm
+    algopy = symx.load_algopy()
+    UTPM = algopy.UTPM
+    P, n = 2, 2
+    X = _mixed_eigh_input(ctx, D)
+    LB = np.empty((D, P, n, n), dtype=object)
+    QB = np.empty((D, P, n, n), dtype=object)
+    for idx in np.ndindex(D, P, n, n):
+        LB[idx] = ctx.var('Lbar%s' % list(idx)) if idx[2] == idx[3] else (S.const(0) if ctx.mode == 'sym' else 0.0)
+        QB[idx] = ctx.var('Qbar%s' % list(idx))
+    A = mk_utpm(ctx, algopy, X)
+    L, Q, b = UTPM.eigh1(A)
+    ctx.fact([list(map(int, bb)) for bb in b] == [[0, 2], [0, 1, 2]], 'block structure per direction: %s' % ([list(map(int, bb)) for bb in b],))
+    Abar = plain(UTPM.pb_eigh1(mk_utpm(ctx, algopy, LB), mk_utpm(ctx, algopy, QB), None, A, L, Q, b).data)
+    for p in range(P):
+        Ap = mk_utpm(ctx, algopy, X[:, p:p + 1])
+        Lp, Qp, bp = UTPM.eigh1(Ap)
+        ctx.eq(plain(Lp.data)[:, 0], plain(L.data)[:, p], 'eigh1 L dir %d' % p)
+        ctx.eq(plain(Qp.data)[:, 0], plain(Q.data)[:, p], 'eigh1 Q dir %d' % p)
+        Ab = plain(UTPM.pb_eigh1(mk_utpm(ctx, algopy, LB[:, p:p + 1]), mk_utpm(ctx, algopy, QB[:, p:p + 1]), None, Ap, Lp, Qp, bp).data)
+        ctx.eq(Abar[:, p], Ab[:, 0], 'pb_eigh1: Abar of direction %d == Abar of that direction alone' % p)
+
+
+def h_reverse_eigh_mixed(ctx, D):
+    """reverse sweep through eigh: direction 0 has a repeated eigenvalue at its base point
+    (splitting at order 1), direction 1 has distinct eigenvalues"""
+    from .c03 import Namespace, record, pullback_guard
+    from .. import programs as PR
+    from .common import plain
+    algopy = symx.load_algopy()
+    P, n = 2, 2
+    X = _mixed_eigh_input(ctx, D)
     prog = PR.by_name()['eigh(2x2)']
     consts = {}
     for nm, shp in prog.consts.items():
@@ -299,6 +336,9 @@ def units(tier, seed):
     out.append(Unit('C11/floordiv, double common zero in the second direction only/D5', 'symx.props.c11', 'h_floordiv_mixed', {'D': 5, 'order': 2, 'regular_first': True}, {'property': PROP}))
     out.append(Unit('C11/floordiv, double common zero in the first direction only/D4', 'symx.props.c11', 'h_floordiv_mixed', {'D': 4, 'order': 2}, {'property': PROP}))
     out.append(Unit('C11/floordiv, 0/0 in one direction only/D3', 'symx.props.c11', 'h_floordiv_mixed', {'D': 3}, {'property': PROP}))
+    for Dq in (1, 2):
+        out.append(Unit('C11/reverse/eigh1 + pb_eigh1, repeated eigenvalue in one direction only/D%d' % Dq, 'symx.props.c11', 'h_eigh1_pullback_mixed', {'D': Dq},
+                        {'property': PROP, 'float_tol': 1e-6, 'validate_values': False}))     # (values depend on the sign convention of the eigenvectors)
     out.append(Unit('C11/reverse/eigh, repeated eigenvalue in one direction only/D2', 'symx.props.c11', 'h_reverse_eigh_mixed', {'D': 2},
                     {'property': PROP, 'float_tol': 1e-6}))
     for pn in REV_PROGS:
